@@ -35,7 +35,7 @@ def world_cfg(case):
     return {"peers": [{"name": "peer1.example", "ip": ["10.1.1.1"]}, {"name": "peer2.example", "ip": ["10.1.1.2"]}],
             "apps": [{"app_id": 4, "auth": True, "peers": [0, 1], "kind": case.get("app_kind", "basic"), "handler": "answer"}],
             "retransmit_queue_size": case["window"], "sched_seed": case.get("seed", 0),
-            "node_timers": {"idle": 300, "dwa": 4, "cer": 4, "cea": 4, "wakeup": 5}}
+            "node_timers": {"idle": 100000, "dwa": 4, "cer": 4, "cea": 4, "wakeup": 5}}
 
 
 def evaluate(case) -> Result:
@@ -153,6 +153,11 @@ def evaluate(case) -> Result:
                 seen_out[ci] = 0
                 reconnects += 1
                 absorb()
+            elif kind == "ADV":
+                # time passes (a held request stays pending: applications may take long)
+                w.advance(ev[1])
+                res.classes.append("time-passes")
+                absorb()
             elif kind == "DWR":
                 ci = ev[1] % len(conns)
                 hbh += 1
@@ -242,7 +247,7 @@ def shard_main(shard, nshards, tier, scale):
     req = st.tuples(st.just("REQ"), st.integers(0, 1), st.integers(0, 1), st.integers(1, 3),
                     st.integers(0, 1), st.sampled_from(["answer", "hold"]))
     ev = st.one_of(req, req, req, st.tuples(st.just("ANSWER"), st.integers(0, 3)),
-                   st.tuples(st.just("DWR"), st.integers(0, 1)),
+                   st.tuples(st.just("DWR"), st.integers(0, 1)), st.tuples(st.just("ADV"), st.sampled_from([2, 45, 120])),
                    st.tuples(st.just("RECONNECT"), st.integers(0, 1), st.sampled_from(["close", "dpr"])))
 
     @st.composite
@@ -264,7 +269,7 @@ def run(tier, scale=1.0):
     rec = Recorder(PID)
     for d in hyp.pool_run(shard_main, (tier, scale)):
         rec.merge(d)
-    required = {"schedule-exploration": 1, "reconnects:1": 1, "window:1": 1, "window:4": 1, "repeats:1": 1, "evictions:1": 1, "two_conns:True": 1,
+    required = {"time-passes": 1, "schedule-exploration": 1, "reconnects:1": 1, "window:1": 1, "window:4": 1, "repeats:1": 1, "evictions:1": 1, "two_conns:True": 1,
                 "app:threading": 1}
     return finish(rec, tier=tier, level="exploration", rule=RULE, assumptions=ASSUME, t0=t0,
                   required_classes=required)
